@@ -383,7 +383,16 @@ fn explore_and_finish(report: Report, prop: &str, tier: Tier, items: Vec<Item>, 
         }
         let _ = std::fs::remove_dir_all(&dir);
         if !failed.is_empty() {
-            vcore::machinery_error(&failed.join("; "));
+            if agg.violations.is_empty() {
+                vcore::machinery_error(&failed.join("; "));
+            }
+            // other worker processes confirmed violations: those are the verdict; a process that
+            // died before it could confirm anything (threads left behind by a violating execution
+            // abort it) only means that its share of the sequences was not executed
+            for f in failed.iter().take(8) {
+                eprintln!("note: {f}");
+            }
+            shards_died += failed.len() as u64;
         }
         report.extra("processes", json!({"shards": nproc, "threads_per_shard": per}));
     }
